@@ -21,7 +21,8 @@ def run(chk, failed):
                 "entries); a batch of ~240 histories (parallel processes, every wait under a deadline) in which the first Notify call of "
                 "a result is SLOW (the recording module blocks) while a real group list / refresh cycle arrives from another goroutine and "
                 "is released once the writer is pending (TryRLock fails) - the response and everything after it must still be handled "
-                "(STUCK = violation); ~3 % of the cases are configurations given to the real Configure() (modules of class email / http / "
+                "(STUCK = violation); ~300 histories in which a SECOND response of the same group is delivered during the slow first Notify "
+                "call of a response (two responses of one group in flight; compared with the sequence of the two); ~3 % of the cases are configurations given to the real Configure() (modules of class email / http / "
                 "null, list keys absent / empty / patterns, via viper.Set and via a TOML document), judged by C14/C10; per step the sorted set of Notify calls (module, cluster, group, status, "
                 "canonical event id, start clock, stateGood) and at the end the cluster entries and every incident record (id, start, "
                 "LastNotify per module) are compared with the extracted model; the C13 oracle (computed from the history alone: an "
@@ -31,7 +32,7 @@ def run(chk, failed):
     G.check_body(chk, failed, "C13", G.oracle_c13, ["groups", "groups", "groups", "clock"], 36000, 600000, CORR)
     chk.assumptions += [
         "uuid.NewRandom is fresh (the model draws 1,2,3..; the probe numbers event ids by first appearance in the incident record)",
-        "the steps of a history are handled one at a time: responses of one group do not overlap (responseLoop starts one goroutine per response; two in-flight responses of the same group race on the unlocked record) and a refresh does not overlap a response of its cluster (they exclude each other through clusterGroups.Lock); every interleaving of whole steps is a history",
+        "HYPOTHESIS OF THE TIE 'responses of one group are handled one at a time': enforced by the code since /repo 01bcddb (a lock per group record in checkAndSendResponseToModules; before it two in-flight responses of one group broke the identity clause - theorem overlap_refuted_before_fix, findings/C13.json) and probed on every run (step o: a second response of the group is delivered during the slow first Notify call of the first; the outcome must be the sequence of the two); a refresh does not overlap a response of its cluster (clusterGroups.Lock); responses of different groups touch different records (groups_independent); so every run of the coordinator is an interleaving of whole steps, i.e. a history",
         "no response arrives for a cluster that has no entry in nc.clusters (the real checkAndSendResponseToModules dereferences the missing entry and panics; sendEvaluatorRequests only asks for evaluations of recorded groups of known clusters and the storage module's cluster list is its static configuration); the model drops such a response and the probe does not run it",
         "after a refresh whose storage request timed out, the goroutine waiting for the reply stays blocked for ever in the unchanged code (nc.running never returns to zero); the probe waits 1 s per timed-out request + 0.3 s for whatever the code does on a timeout, then continues the history with a second Coordinator sharing all state (modules, clusters map, locks) - effects later than that are not observed",
         "consumerGroup.LastEval (evaluation scheduling, random initial value) is not modelled: it plays no part in what a response does",
